@@ -52,7 +52,7 @@ PRIORITY = ['invalid-signature', 'signature-for-other-block', 'unknown-signer', 
             'exactly-two-thirds', 'insufficient-weight']
 
 
-def _key(seed_hex):
+def _key_raw(seed_hex):
     from nacl.signing import SigningKey
     sk = SigningKey(bytes.fromhex(seed_hex))
     return sk, bytes(sk.verify_key)
@@ -108,10 +108,18 @@ def analyse(case):
     return (not reasons), reasons, signed, total
 
 
-def check(case):
-    from pytoniq_core.proof.check_proof import check_block_signatures
+def materialise(case, keymemo=None):
+    """(nodes, sigs, blk) as library objects for one call, built from the plain-data case. `keymemo` (seed hex -> key pair) only
+    lives as long as one check() invocation."""
     from pytoniq_core.tlb.config import ValidatorDescr, SigPubKey
     from pytoniq_core.tl.block import BlockIdExt
+    if keymemo is None:
+        keymemo = {}
+
+    def _key(seed_hex):
+        if seed_hex not in keymemo:
+            keymemo[seed_hex] = _key_raw(seed_hex)
+        return keymemo[seed_hex]
     b = case['blk']
     root, file = bytes.fromhex(b['root']), bytes.fromhex(b['file'])
     blk = BlockIdExt(b['wc'], b['shard'], b['seqno'], root, file)
@@ -190,6 +198,15 @@ def check(case):
         else:
             raise ValueError(k)
         sigs.append({'node_id_short': spell(node_id(pk).hex(), e.get('sp', 0)), 'signature': s})
+    return nodes, sigs, blk
+
+
+def check(case):
+    from pytoniq_core.proof.check_proof import check_block_signatures
+    from pytoniq_core.tl.block import BlockIdExt
+    nodes, sigs, blk = materialise(case)
+    b = case['blk']
+    root, file = bytes.fromhex(b['root']), bytes.fromhex(b['file'])
     expect, reasons, signed, total = analyse(case)
     ok, res = call(check_block_signatures, nodes, sigs, blk)
     f = None
@@ -224,6 +241,190 @@ def check(case):
     if f is not None and f.signature in _IGNORE:
         return None
     return f
+
+
+# --------------------------------------------------------------------------------------------------
+# histories: several checks in one process, related validator sets, lazily produced signature lists, nested checks
+
+LAZY_FORMS = ('gen', 'iter', 'getitem', 'lazy-entry')
+
+
+class _IterSeq:
+    """a caller's own re-iterable sequence type (only __iter__ / __len__)"""
+
+    def __init__(self, items, fire):
+        self.items, self.fire = items, fire
+
+    def __len__(self):
+        return len(self.items)
+
+    def __iter__(self):
+        for k, e in enumerate(self.items):
+            self.fire(k)
+            yield e
+        self.fire(len(self.items))
+
+
+class _GetitemSeq:
+    """a caller's own sequence type that is iterated through __getitem__ / IndexError"""
+
+    def __init__(self, items, fire):
+        self.items, self.fire = items, fire
+
+    def __len__(self):
+        return len(self.items)
+
+    def __getitem__(self, k):
+        if isinstance(k, slice):
+            return self.items[k]
+        if k < 0:
+            k += len(self.items)
+        self.fire(min(k, len(self.items)))
+        return self.items[k]
+
+
+class _Entry(dict):
+    """an entry whose fields are produced on first access"""
+
+    def __init__(self, d, hook):
+        super().__init__(d)
+        self._hook = hook
+
+    def __getitem__(self, key):
+        h, self._hook = self._hook, None
+        if h is not None:
+            h()
+        return dict.__getitem__(self, key)
+
+    def get(self, key, default=None):
+        h, self._hook = self._hook, None
+        if h is not None:
+            h()
+        return dict.get(self, key, default)
+
+
+def _gen(items, fire):
+    for k, e in enumerate(items):
+        fire(k)
+        yield e
+    fire(len(items))
+
+
+def _edit_in_place(prev, new):
+    """turn the list object `prev` (ValidatorDescr objects of an earlier, finished call) into the set `new` by assigning the public
+    attributes / resizing the list: the caller keeps one list of descriptors and updates it when the set changes"""
+    del prev[len(new):]
+    for i, nn in enumerate(new):
+        if i >= len(prev):
+            prev.append(nn)
+            continue
+        o = prev[i]
+        if o.public_key.pubkey != nn.public_key.pubkey:
+            if i % 2:
+                o.public_key = nn.public_key
+            else:
+                o.public_key.pubkey = nn.public_key.pubkey
+        if o.weight != nn.weight:
+            o.weight = nn.weight
+        o.type_, o.adnl_addr = nn.type_, nn.adnl_addr
+    return prev
+
+
+def _walk(step, path=()):
+    yield path, step
+    for j, inn in enumerate(step.get('inner', ())):
+        yield from _walk(inn['step'], path + (j,))
+
+
+def _run_step(step, ctx, path, outer=None):
+    from pytoniq_core.proof.check_proof import check_block_signatures
+    nodes, sigs, blk = ctx['mat'][path]
+    nform = step.get('nform', 'list')
+    if nform == 'same':
+        if outer is not None:
+            if outer[1] == step['validators']:
+                nodes = outer[0]                         # the very list object the enclosing call was given
+        elif ctx.get('objs') is not None:
+            nodes = _edit_in_place(ctx['objs'], nodes)   # the list object of the previous (finished) call, updated in place
+    if outer is None:
+        ctx['objs'] = nodes
+    inner = step.get('inner', [])
+    fired = set()
+
+    def fire(where, k):
+        for j, inn in enumerate(inner):
+            if j not in fired and inn.get('in', 'sigs') == where and inn['at'] == k:
+                fired.add(j)
+                try:
+                    _run_step(inn['step'], ctx, path + (j,), outer=(nodes, step['validators']))
+                except Exception as e:          # harness trouble must not look like a rejection by the library
+                    ctx.setdefault('harness_exc', e)
+
+    sform = step.get('sform', 'list')
+    if sform == 'list':
+        sarg = sigs
+    elif sform == 'tuple':
+        sarg = tuple(sigs)
+    elif sform == 'gen':
+        sarg = _gen(sigs, lambda k: fire('sigs', k))
+    elif sform == 'iter':
+        sarg = _IterSeq(sigs, lambda k: fire('sigs', k))
+    elif sform == 'getitem':
+        sarg = _GetitemSeq(sigs, lambda k: fire('sigs', k))
+    elif sform == 'lazy-entry':
+        sarg = [_Entry(e, (lambda k=k: fire('sigs', k))) for k, e in enumerate(sigs)]
+    else:
+        raise ValueError(sform)
+    if nform == 'tuple':
+        narg = tuple(nodes)
+    elif nform == 'gen':
+        narg = _gen(nodes, lambda k: fire('nodes', k))
+    else:
+        narg = nodes
+    ok, res = call(check_block_signatures, narg, sarg, blk)
+    ctx['log'].append((path, step, ok, res, bool(fired)))
+
+
+def check_history(case):
+    """every call of the program - top-level ones one after the other, nested ones made by the caller's own code while the library
+    consumes a lazily produced argument - is judged by the same oracle as a single call: the verdict is a function of the validator
+    set, the entries and the block id handed to THAT call, whatever was checked before or is being checked around it"""
+    keymemo = {}
+    ctx = {'log': [], 'mat': {}, 'objs': None}
+    for t, step in enumerate(case['steps']):
+        for path, st_ in _walk(step, (t,)):
+            ctx['mat'][path] = materialise(st_, keymemo)
+    for t, step in enumerate(case['steps']):
+        _run_step(step, ctx, (t,))
+        if 'harness_exc' in ctx:
+            raise HarnessError(f'nested step failed in harness code: {ctx["harness_exc"]!r}')
+    tops = [p for p, *_ in ctx['log'] if len(p) == 1]
+    if tops != [(t,) for t in range(len(case['steps']))]:
+        raise HarnessError('top-level calls were not logged once each')
+    for path, step, ok, res, fired in ctx['log']:
+        expect, reasons, signed, total = analyse(step)
+        if ok == expect:
+            continue
+        tag = ('nested-call' if len(path) > 1 else 'call-with-nested-check-inside' if fired else
+               'later-call' if path[0] > 0 else 'first-call')
+        summ = (f'call {".".join(map(str, path))} of a program of {len(case["steps"])} top-level calls '
+                f'[{step.get("note", "")}; signatures as {step.get("sform", "list")}, validators as {step.get("nform", "list")}]: '
+                f'{len(step["validators"])} validators total weight {total}, {len(step["sigs"])} entries, '
+                f'distinct valid signed weight {signed} (3*signed-2*total = {3 * signed - 2 * total})')
+        if ok:
+            why = next(r for r in PRIORITY if r in reasons)
+            f = Fail(f'history/accepted/{why}/{tag}', f'accepted although {sorted(reasons)}: {summ}')
+        else:
+            if any(e.get('sp', 0) for e in step['sigs']):
+                continue
+            sig = f'history/rejected/valid-supermajority/{tag}'
+            if type(res).__name__ != 'ProofError':
+                sig += '/' + exc_sig(res)
+            f = Fail(sig, f'{res!r}: {summ}')
+        if f.signature in _IGNORE:
+            continue
+        return f
+    return None
 
 
 # --------------------------------------------------------------------------------------------------
@@ -373,6 +574,320 @@ def strat(tier):
     return _case()
 
 
+# ---- histories -------------------------------------------------------------------------------------------------------------
+# A validator set is handled as a list of (key number, weight); key number k of a program tagged `tag` is the seed _seed(tag/k).
+
+M61 = (1 << 61) - 1          # CPython hashes ints modulo 2**61-1: w and w + k*M61 are different weights with equal hash()
+U64 = (1 << 64) - 1          # weight:uint64
+MUTATIONS = ('same', 'collide61x1', 'collide61x4', 'collide61x7', 'plus2^32', 'plus2^63', 'plus1', 'double-one', 'to-zero',
+             'to-max', 'swap-weights', 'rotate-weights', 'double-all', 'reverse-order', 'rotate-order', 'replace-key',
+             'drop-last', 'drop-first', 'add-one')
+SIGNER_MODES = ('light-3/4', 'heavy+third', 'count-2/3', 'count-2/3+1', 'all')
+HISTORY_SIZES = (4, 16, 24, 32, 33, 40, 64)
+
+
+def mutate(ps, kind, p):
+    """a validator set related to `ps`: same keys with one weight moved (by a multiple of 2**61-1, of 2**32, to an extreme ...),
+    the same weights dealt differently, the same members in another order, one member replaced / removed / added"""
+    ps = [list(x) for x in ps]
+    n = len(ps)
+    if n == 0 or kind == 'same':
+        return [tuple(x) for x in ps]
+    p %= n
+    w = ps[p][1]
+    if kind.startswith('collide61x'):
+        k = int(kind[len('collide61x'):])
+        ps[p][1] = w + k * M61 if w + k * M61 <= U64 else w - k * M61 if w >= k * M61 else w % M61
+    elif kind == 'plus2^32':
+        ps[p][1] = (w + (1 << 32)) if w + (1 << 32) <= U64 else w - (1 << 32)
+    elif kind == 'plus2^63':
+        ps[p][1] = (w + (1 << 63)) if w + (1 << 63) <= U64 else w - (1 << 63)
+    elif kind == 'plus1':
+        ps[p][1] = w + 1 if w < U64 else w - 1
+    elif kind == 'double-one':
+        ps[p][1] = min(U64, 2 * w + 2 * n)
+    elif kind == 'to-zero':
+        ps[p][1] = 0 if w else 3 * n
+    elif kind == 'to-max':
+        ps[p][1] = U64 if w != U64 else 1
+    elif kind == 'swap-weights':
+        q = (p + 1) % n
+        ps[p][1], ps[q][1] = ps[q][1], ps[p][1]
+    elif kind == 'rotate-weights':
+        ws = [x[1] for x in ps]
+        for i in range(n):
+            ps[i][1] = ws[(i + 1) % n]
+    elif kind == 'double-all':
+        for x in ps:
+            x[1] = min(U64, 2 * x[1])
+    elif kind == 'reverse-order':
+        ps.reverse()
+    elif kind == 'rotate-order':
+        ps = ps[1:] + ps[:1]
+    elif kind == 'replace-key':
+        ps[p][0] = 1000 + max(x[0] for x in ps)
+    elif kind == 'drop-last':
+        ps.pop()
+    elif kind == 'drop-first':
+        ps.pop(0)
+    elif kind == 'add-one':
+        ps.insert(p, [2000 + max(x[0] for x in ps), max(1, w)])
+    else:
+        raise ValueError(kind)
+    return [tuple(x) for x in ps]
+
+
+def pick_signers(ps, mode, p):
+    """key numbers of the signers, chosen by position in `ps`; p = the member the neighbouring sets differ in"""
+    n = len(ps)
+    if n == 0:
+        return []
+    p %= n
+    rest = [i for i in range(n) if i != p]
+    if mode == 'light-3/4':
+        pos = rest[:(3 * n + 3) // 4]
+    elif mode == 'heavy+third':
+        pos = [p] + rest[:n // 3]
+    elif mode == 'count-2/3':
+        pos = list(range(n))[:(2 * n) // 3]
+    elif mode == 'count-2/3+1':
+        pos = list(range(n))[:(2 * n) // 3 + 1]
+    elif mode == 'all':
+        pos = list(range(n))
+    else:
+        raise ValueError(mode)
+    return [ps[i][0] for i in pos]
+
+
+def hstep(tag, ps, signer_keys, blk_tag, note='', **kw):
+    """one call as plain data: the set `ps`, entries by the given key numbers in the given order (a key that is not in the set
+    gives a non-member entry)"""
+    where = {k: i for i, (k, _) in enumerate(ps)}
+    sigs = [{'k': 'valid', 'i': where[k]} if k in where else {'k': 'nonmember', 'seed': _seed(f'{tag}/{k}')} for k in signer_keys]
+    step = {'validators': [{'seed': _seed(f'{tag}/{k}'), 'weight': w} for k, w in ps], 'blk': _blk(f'{tag}/{blk_tag}'), 'sigs': sigs,
+            'note': note}
+    step.update(kw)
+    return step
+
+
+def _base_set(n, wp):
+    return [(i, 1 if wp == 'ones' else i + 1 if wp == 'ramp' else (i * 7) % 5) for i in range(n)]
+
+
+def enum_related(tier):
+    """two or three calls one after the other: a set A and a related set B (every mutation kind, at the first / last member), the
+    SAME signers presented each time, in the orders A B, B A, A B A; fresh objects or the caller's one list updated in place"""
+    sizes = HISTORY_SIZES if tier == 'quick' else HISTORY_SIZES + (8, 12, 17, 25, 48, 100, 128)
+    c = 0
+    for n in sizes:
+        for wp in ('ones', 'ramp'):
+            a = _base_set(n, wp)
+            for kind in MUTATIONS[1:]:
+                for p in (0, n - 1):
+                    b = mutate(a, kind, p)
+                    for mode in ('light-3/4', 'heavy+third', 'count-2/3+1'):
+                        sg = pick_signers(a, mode, p)
+                        for order in ('ab', 'ba', 'aba'):
+                            c += 1
+                            tag = f'rel/{n}/{wp}'
+                            nform = ('list', 'same', 'tuple', 'list', 'gen')[c % 5]
+                            steps = [hstep(tag, a if ch == 'a' else b, sg, f'{kind}/{p}/{mode}/{order}/{t}',
+                                           note=('base set' if ch == 'a' else f'{kind}@{p}') + f', signers {mode}',
+                                           nform=nform if t else 'list', sform=('list', 'tuple', 'gen')[(c + t) % 3])
+                                     for t, ch in enumerate(order)]
+                            yield {'steps': steps}
+
+
+INNER_RELATIONS = ('equal-fresh', 'same-object', 'collide61x1', 'double-one', 'reverse-order', 'other-keys')
+INNER_SIGNERS = ('none', 'all', 'upper-3/4', 'lower-third', 'fails-midway')
+OUTER_PATTERNS = ('dup-after', 'valid-after', 'insufficient-after', 'inner-first', 'inner-at-end')
+
+
+def _inner_step(tag, ps, rel, isg, blk_tag, same_blk_as=None):
+    n = len(ps)
+    if rel in ('equal-fresh', 'same-object'):
+        q = list(ps)
+    elif rel == 'other-keys':
+        q = [(500 + k, w) for k, w in ps]
+    else:
+        q = mutate(ps, rel, n - 1)
+    if isg == 'none':
+        keys = []
+    elif isg == 'all':
+        keys = [k for k, _ in q]
+    elif isg == 'upper-3/4':
+        keys = [k for k, _ in q[n // 4:]]
+    elif isg == 'lower-third':
+        keys = [k for k, _ in q[:n // 3]]
+    else:
+        keys = [k for k, _ in q]
+    st_ = hstep(tag, q, keys, blk_tag, note=f'nested: set {rel}, signers {isg}', nform='same' if rel == 'same-object' else 'list')
+    if isg == 'fails-midway' and st_['sigs']:
+        m = len(st_['sigs']) // 2
+        st_['sigs'][m] = {'k': 'bitflip', 'i': st_['sigs'][m]['i'], 'bit': (7 * n + m) % 512}
+    if same_blk_as is not None:
+        st_['blk'] = dict(same_blk_as)
+    return st_
+
+
+def _outer_step(tag, ps, pattern, blk_tag, lazy, inner_step):
+    """signers by position; the nested call happens when the library asks for the entry at `at`"""
+    n = len(ps)
+    h = max(1, n // 2)
+    m = (2 * n) // 3 + 1                       # with equal weights: the smallest accepted number of signers
+    ks = [k for k, _ in ps]
+    if pattern == 'dup-after':
+        keys, at = ks[:h] + ks[:max(1, h - n // 5)], h
+    elif pattern == 'valid-after':
+        keys, at = ks[:m], min(h, m - 1)
+    elif pattern == 'insufficient-after':
+        keys, at = ks[:m - 1], min(h, max(0, m - 2))
+    elif pattern == 'inner-first':
+        keys, at = ks[:m], 0
+    elif pattern == 'inner-at-end':
+        keys, at = ks[:m - 1], m - 1
+    else:
+        raise ValueError(pattern)
+    if lazy == 'nodes-gen':
+        return hstep(tag, ps, keys, blk_tag, note=f'{pattern}, nested check while the validators are read', sform='list', nform='gen',
+                     inner=[{'in': 'nodes', 'at': min(at, n), 'step': inner_step}])
+    if lazy == 'lazy-entry':
+        at = min(at, max(0, len(keys) - 1))     # an entry hook only exists for entries
+    return hstep(tag, ps, keys, blk_tag, note=f'{pattern}, nested check at entry {at}', sform=lazy,
+                 inner=[{'in': 'sigs', 'at': at, 'step': inner_step}])
+
+
+def enum_nested(tier):
+    """one call whose signature list (or validator list) is produced lazily by caller code that checks another block meanwhile:
+    sizes x lazy form x relation of the nested call's set x nested signers x outer pattern; then the same outer call again, plainly"""
+    sizes = (3, 12, 24, 30, 36, 64) if tier == 'quick' else (1, 2, 3, 5, 12, 16, 24, 25, 30, 32, 36, 48, 64, 100, 128)
+    c = 0
+    for n in sizes:
+        for lazy in LAZY_FORMS + ('nodes-gen',):
+            for rel in INNER_RELATIONS:
+                for isg in INNER_SIGNERS:
+                    for pattern in OUTER_PATTERNS:
+                        c += 1
+                        wp = ('ones', 'ones', 'ramp')[c % 3]
+                        tag = f'nest/{n}/{wp}'
+                        ps = _base_set(n, wp)
+                        bt = f'{lazy}/{rel}/{isg}/{pattern}'
+                        outer_blk = _blk(f'{tag}/{bt}/o')
+                        inner = _inner_step(tag, ps, rel, isg, bt + '/i', same_blk_as=outer_blk if c % 4 == 0 else None)
+                        outer = _outer_step(tag, ps, pattern, bt + '/o', lazy, inner)
+                        steps = [outer]
+                        if c % 2:
+                            again = dict(outer, sform='list', nform='list', note='the outer call again, plain list')
+                            again.pop('inner')
+                            steps.append(again)
+                        yield {'steps': steps}
+
+
+@st.composite
+def _history(draw):
+    tag = 'h/' + draw(st.binary(min_size=3, max_size=3)).hex()
+    n = draw(st.sampled_from([1, 2, 3, 5, 8, 12, 16, 17, 24, 25, 31, 32, 33, 40, 48, 64, 65]))
+    wp = draw(st.sampled_from(['ones', 'ones', 'ramp', 'mod5', 'random']))
+    wsmall = st.sampled_from([0, 1, 1, 2, 3])
+    wany = st.one_of(wsmall, wsmall, st.integers(0, 1 << 62), st.sampled_from([M61, 1 << 61, (1 << 32) - 1, 1 << 32, 1 << 63, U64]))
+    base = [(i, draw(wany)) for i in range(n)] if wp == 'random' else _base_set(n, wp)
+    counter = [0]
+
+    def one_call(ps, depth):
+        counter[0] += 1
+        cid = counter[0]
+        p = draw(st.sampled_from([0, len(ps) - 1, len(ps) // 2])) if ps else 0
+        mode = draw(st.sampled_from(SIGNER_MODES + ('subset',)))
+        if mode == 'subset':
+            keys = [k for k, _ in ps if draw(st.booleans())]
+        else:
+            keys = pick_signers(ps, mode, p)
+        if draw(st.integers(0, 3)) == 0:
+            keys = list(draw(st.permutations(keys)))
+        step = hstep(tag, ps, keys, f'c{cid}', note=f'signers {mode}')
+        adv = draw(st.sampled_from(['none', 'none', 'none', 'none', 'dup', 'dup-alt', 'bitflip', 'nonmember', 'otherblk']))
+        if adv != 'none' and ps:
+            i = draw(st.integers(0, len(ps) - 1))
+            e = {'dup': {'k': 'valid', 'i': step['sigs'][0]['i'] if step['sigs'] and step['sigs'][0]['k'] == 'valid' else i},
+                 'dup-alt': {'k': 'valid-alt', 'i': step['sigs'][-1]['i'] if step['sigs'] and step['sigs'][-1]['k'] == 'valid' else i,
+                             'salt': cid % 256},
+                 'bitflip': {'k': 'bitflip', 'i': i, 'bit': draw(st.integers(0, 511))},
+                 'nonmember': {'k': 'nonmember', 'seed': _seed(f'{tag}/nm{cid}')},
+                 'otherblk': {'k': 'otherblk', 'i': i, 'how': draw(st.sampled_from(['root', 'file', 'swap'])), 'bit': 5}}[adv]
+            if adv in ('dup', 'dup-alt') and not any(x['k'] == 'valid' and x['i'] == e['i'] for x in step['sigs']):
+                step['sigs'].append({'k': 'valid', 'i': e['i']})
+            step['sigs'].insert(draw(st.integers(0, len(step['sigs']))), e)
+            step['note'] += f', plus {adv}'
+        step['sform'] = draw(st.sampled_from(('list', 'list', 'tuple') + LAZY_FORMS))
+        step['nform'] = draw(st.sampled_from(['list', 'list', 'list', 'tuple', 'gen', 'same']))
+        lazy_s, lazy_n = step['sform'] in LAZY_FORMS, step['nform'] == 'gen'
+        if depth < 2 and (lazy_s or lazy_n) and draw(st.integers(0, 3 if depth else 1)) == 0 or (depth == 0 and lazy_s and draw(st.booleans())):
+            inner = []
+            for _ in range(draw(st.sampled_from([1, 1, 1, 2]))):
+                where = draw(st.sampled_from([w for w, okw in (('sigs', lazy_s), ('nodes', lazy_n)) if okw]))
+                top = len(step['sigs']) if where == 'sigs' else len(ps)
+                if where == 'sigs' and step['sform'] == 'lazy-entry':
+                    top = max(0, top - 1)
+                at = draw(st.integers(0, top))
+                rel = draw(st.sampled_from(('same', 'same', 'same') + MUTATIONS))
+                q = mutate(ps, rel, draw(st.integers(0, max(0, len(ps) - 1))))
+                sub = one_call(q, depth + 1)
+                sub['note'] = f'nested: set {rel}; ' + sub['note']
+                if draw(st.integers(0, 3)) == 0:
+                    sub['blk'] = dict(step['blk'])
+                inner.append({'in': where, 'at': at, 'step': sub})
+            step['inner'] = inner
+        return step
+
+    steps = []
+    cur = base
+    for t in range(draw(st.sampled_from([1, 2, 2, 3, 3, 4, 6]))):
+        if t:
+            kind = draw(st.sampled_from(MUTATIONS))
+            src = draw(st.sampled_from([base, cur, cur]))
+            cur = mutate(src, kind, draw(st.sampled_from([0, len(src) - 1, len(src) // 2])) if src else 0)
+            if len(cur) > 70:
+                cur = cur[:70]
+        else:
+            kind = 'base set'
+        sp = one_call(cur, 0)
+        sp['note'] = f'{kind}; ' + sp['note']
+        steps.append(sp)
+    return {'steps': steps}
+
+
+def classify_history(case):
+    calls = [(p, s) for t, top in enumerate(case['steps']) for p, s in _walk(top, (t,))]
+    yield f'top-level-calls={len(case["steps"])}'
+    yield f'nested-calls={min(3, len(calls) - len(case["steps"]))}'
+    yield f'n={max(len(s["validators"]) for _, s in calls) // 8 * 8}+'
+    seen = {}
+    for p, s in calls:
+        expect, reasons, signed, total = analyse(s)
+        yield ('nested ' if len(p) > 1 else '') + ('expect=accept' if expect else 'expect=reject')
+        for r in reasons:
+            yield 'reason=' + r
+        yield 'sigs-as=' + s.get('sform', 'list')
+        yield 'validators-as=' + s.get('nform', 'list')
+        for inn in s.get('inner', ()):
+            yield 'nested-while-reading=' + inn.get('in', 'sigs')
+        ks = tuple(v['seed'] for v in s['validators'])
+        ws = tuple(v['weight'] for v in s['validators'])
+        if ks in seen and seen[ks] != ws:
+            yield 'same-keys-other-weights-than-an-earlier-call'
+            if all((a - b) % M61 == 0 for a, b in zip(seen[ks], ws)):
+                yield 'weights-differ-by-multiples-of-2^61-1'
+        elif ks in seen:
+            yield 'same-set-as-an-earlier-call'
+        seen.setdefault(ks, ws)
+        if total >= 1 << 61:
+            yield 'weights>=2^61'
+
+
+def nontrivial_history(case):
+    return sum(1 for t, top in enumerate(case['steps']) for _ in _walk(top, (t,))) >= 2
+
+
 def classify(case):
     expect, reasons, signed, total = analyse(case)
     yield 'expect=accept' if expect else 'expect=reject'
@@ -401,4 +916,10 @@ SUBCHECKS = [
     Sub('enum-small', check, enum=enum_small, classify=classify, nontrivial=nontrivial, shards=(16, 32),
         note='n=0..5 (thorough 0..7) validators x 3 weight patterns x every signer subset x 11 list shapes'),
     Sub('random', check, strategy=strat, classify=classify, nontrivial=nontrivial, n=(4000, 300000), shards=(16, 48)),
+    Sub('history-related-sets', check_history, enum=enum_related, classify=classify_history, nontrivial=nontrivial_history,
+        shards=(16, 32), note='sets of 4..64 (thorough ..128) validators x 18 relations x 3 signer choices x call orders AB/BA/ABA'),
+    Sub('history-nested', check_history, enum=enum_nested, classify=classify_history, nontrivial=nontrivial_history,
+        shards=(16, 32), note='a check made by caller code while an enclosing check reads its lazily produced arguments'),
+    Sub('history-random', check_history, strategy=lambda tier: _history(), classify=classify_history,
+        nontrivial=nontrivial_history, n=(1200, 60000), shards=(16, 48)),
 ]
